@@ -1273,7 +1273,8 @@ impl Harness for C15 {
          save_previous_result. Queries come from a per-history weighted pool: plain numeric expressions with unique values, uses of ans/ANS/_ in every \
          operand position and as conversion source, conversions (unit, list, base, digits, temperature, currency, timezone), definition look-ups, units for / \
          factorize / search, substances, date results, results in seconds, failing queries of each error class, the empty line, names that merely \
-         resemble ans, a small vocabulary of identifiers used through several query kinds, and the ~200 queries of the repository's own core/tests/query.rs \
+         resemble ans, a small vocabulary of identifiers used through several query kinds, derived-unit algebra and conversions to bare derived units, \
+         date literals in every notation the bundled patterns know (well-formed and malformed), and the ~200 queries of the repository's own core/tests/query.rs \
          (verbatim, and with ans substituted for their first number). After every query the reply (JSON and text) is compared with \
          the reply of an in-process reference context driven through the same entry point with ans, flag and clock preset from a model of ans, and the \
          stored previous result, clock and settings are compared with the model; a disagreement is arbitrated by a brand-new process. In 3 histories of 4 a seeded \
